@@ -681,3 +681,45 @@ def canon_edges(g):
             out.append([min(u, v), max(u, v), 0, enc_label(d.get("bond"))])
     out.sort(key=lambda e: (e[0], e[1], e[2], str(e[3])))
     return out
+
+
+# ---------------------------------------------------------------------------
+# replay
+# ---------------------------------------------------------------------------
+def generic_replay(prop, path, reimpl=None):
+    """re-evaluate a recorded request.  Without `reimpl` the recorded implementation output is
+    re-checked by the driver against the current model/spec; with `reimpl(parsed_request)` the
+    current implementation is run again on the recorded input first."""
+    rec = json.load(open(path))
+    line = rec.get("request_line")
+    if not line:
+        print("replay file has no request_line (kind=%s): %s" % (rec.get("kind"), rec.get("theorem_or_correspondence")))
+        return 2
+    b = build([])
+    if not b.driver_ok:
+        print("ERROR driver does not build")
+        return 2
+    d = Driver()
+    req = parse_sx(line)
+    if reimpl is not None:
+        new_impl = reimpl(req)
+        if isinstance(new_impl, ImplError):
+            tail = sx([Atom("raised"), Atom(new_impl.kind)])
+        else:
+            tail = sx(new_impl)
+        line = sx_of(req[:-1])[:-1] + " " + tail + ")"
+        print("re-ran the implementation on the recorded input")
+    reply = d.ask(line)
+    d.close()
+    print("request:", line[:2000])
+    print("reply:  ", sx_of(reply)[:2000])
+    ok = isinstance(reply, list) and len(reply) >= 4 and reply[0] == "ok"
+    if not ok:
+        return 2
+    impl_c = parse_sx(line)[-1]
+    if reply[3] == "0":
+        print("VIOLATION property=%s replay=%s" % (prop, path))
+        return 1
+    if reply[1] != impl_c:
+        print("correspondence: model and implementation outputs differ on this input (spec holds)")
+    return 0
